@@ -91,6 +91,10 @@ class Prop(core.Prop):
                 yield dict(group, layers=lp, start=[1, 1, 1], tables='complete', revtime=True)
                 yield dict(group, layers=lp, start=[2, 3, 2], tables='complete', revtime=True, dt=3)
         for lp in ('1', '2+3'):
+            # a diaginfo.dat whose last line has no trailing newline; window origins that differ between tracers
+            yield dict(group, layers=lp, start=[1, 1, 1], tables='complete', nonl=True)
+            yield dict(group, layers=lp, start=[2, 3, 2], tables='complete', perstart=True)
+        for lp in ('1', '2+3'):
             yield dict(group, layers=lp, start=[1, 1, 1], tables='complete', dt=3)
             yield dict(group, layers=lp, start=[1, 1, 1], tables='complete', instant=True)
             if self.tier == 'thorough':
@@ -124,7 +128,9 @@ class Prop(core.Prop):
                 # the 40-character 'reserved' field of the block header: blank, or a tag per tracer
                 rsv = ('station=%s run=%d' % ('ABCD'[k % 4], 17 + k)) if case.get('reserved') and k % 2 == 0 else ''
                 blk.append(dict(category=cat, tracer=num - off, unit='v/v', tau0=self.taus[t][0], tau1=self.taus[t][1],
-                                reserved=rsv, start=tuple(case['start']), data=data))
+                                reserved=rsv, start=(tuple(case['start']) if not case.get('perstart') else
+                                                     (case['start'][0] + k, case['start'][1] + k % 2, case['start'][2])),
+                                data=data))
             blocks.append(blk)
         r = dict(ftype='CTM bin 02', toptitle='GEOS-CHEM binary punch file v. 2.0', modelname='GEOS5_47L',
                  modelres=(2.5, 2.0), halfpolar=case.get('flags', [1, 1])[0],
@@ -259,8 +265,8 @@ class Prop(core.Prop):
                     fh.write(rf.tracerinfo_line(name, name + ' tracer', 2.8e-2, 1, num, scale, unit) + '\n')
         with open(os.path.join(d, 'diaginfo.dat'), 'w') as fh:
             fh.write('# reference diaginfo\n')
-            for cat, off in CATS:
-                fh.write(rf.diaginfo_line(off, cat, 'category ' + cat) + '\n')
+            txt = ''.join(rf.diaginfo_line(off, cat, 'category ' + cat) + '\n' for cat, off in CATS)
+            fh.write(txt[:-1] if case.get('nonl') else txt)
         st = [h64(raw)]
         scope = dict(nt=case['nt'], ncat=case['ncat'], ntr=case['ntr'], layers=case['layers'],
                      nested=bool(case['start'] != [1, 1, 1]), tables=case['tables'],
